@@ -751,6 +751,163 @@ impl Protocol for DgBystander {
     }
 }
 
+// ---------------------------------------------------------------------------------------------
+// Two stream sockets of one machine bound to the same local endpoint connect to the same remote
+// endpoint at the same time (while ARP is still unresolved, so the first connect is suspended
+// when the second starts). At most one may succeed, and what the successful one writes arrives.
+
+struct TwinServer {
+    sh: Arc<Shared>,
+}
+struct TwinClient {
+    sh: Arc<Shared>,
+}
+
+#[async_trait::async_trait]
+impl Protocol for TwinServer {
+    async fn start(&self, shutdown: Shutdown, initialized: Arc<Barrier>, machine: Arc<Machine>) -> Result<(), StartError> {
+        let mut listener = TcpListener::bind(Endpoint::new(ip(SERVER), PORT), machine)
+            .await
+            .map_err(|_| StartError::Other)?;
+        initialized.wait().await;
+        let sh = self.sh.clone();
+        // whoever connects: read what it sends
+        tokio::spawn(async move {
+            while let Ok(mut st) = listener.accept().await {
+                let sh = sh.clone();
+                tokio::spawn(async move {
+                    if let Ok(b) = st.read_exact(4).await {
+                        sh.log.push(Ev::Read { who: 0, asked: 4, got: b });
+                    }
+                });
+            }
+        });
+        tokio::time::sleep(Duration::from_millis(2500)).await;
+        shutdown.shut_down();
+        Ok(())
+    }
+    fn demux(&self, _m: Message, _c: Arc<dyn Session>, _ctl: Control, _mach: Arc<Machine>) -> Result<(), DemuxError> {
+        Ok(())
+    }
+}
+
+#[async_trait::async_trait]
+impl Protocol for TwinClient {
+    async fn start(&self, _shutdown: Shutdown, initialized: Arc<Barrier>, machine: Arc<Machine>) -> Result<(), StartError> {
+        let api = machine.protocol::<SocketAPI>().unwrap();
+        initialized.wait().await;
+        for k in 0..2u8 {
+            let (api, machine, sh) = (api.clone(), machine.clone(), self.sh.clone());
+            tokio::spawn(async move {
+                let Ok(mut s) = api.new_socket(ProtocolFamily::INET, SocketType::Stream, machine.clone()).await else {
+                    return;
+                };
+                if s.bind(Endpoint::new(ip(10), 5555)).is_err() {
+                    sh.log.push(Ev::Note { who: k + 1, what: "bind refused".into() });
+                    return;
+                }
+                match s.connect(Endpoint::new(ip(SERVER), PORT)).await {
+                    Ok(_) => {
+                        sh.log.push(Ev::Note { who: k + 1, what: "connected".into() });
+                        let b = vec![0xA0 + k; 4];
+                        sh.log.push(Ev::Wrote { who: k + 1, bytes: b.clone() });
+                        let _ = s.send(b);
+                        // keep the socket alive
+                        std::future::pending::<()>().await;
+                    }
+                    Err(e) => sh.log.push(Ev::Note { who: k + 1, what: format!("connect failed: {e:?}") }),
+                }
+            });
+        }
+        std::future::pending::<()>().await;
+        Ok(())
+    }
+    fn demux(&self, _m: Message, _c: Arc<dyn Session>, _ctl: Control, _mach: Arc<Machine>) -> Result<(), DemuxError> {
+        Ok(())
+    }
+}
+
+pub struct TwinSc {
+    pub arp: bool,
+}
+
+impl Scenario for TwinSc {
+    type Obs = (String, Vec<String>);
+    fn name(&self) -> String {
+        format!("two sockets bound to one endpoint connect to one remote at once, arp={}", self.arp)
+    }
+    fn run(&self) -> (Self::Obs, Vec<Violation>) {
+        sched::install_rand(vec![1000, 5000, 9000, 13000], vec![]);
+        let net = network(Some(1500));
+        sched::register_networks(&[&net]);
+        install_frame_choices(fault_menu(false));
+        let sh = Arc::new(Shared {
+            log: Log::default(),
+            remaining: AtomicUsize::new(0),
+        });
+        let machines = vec![
+            socket_host(&net, ip(SERVER), self.arp, TwinServer { sh: sh.clone() }),
+            socket_host(&net, ip(10), self.arp, TwinClient { sh: sh.clone() }),
+        ];
+        sched::register_machines(&machines);
+        let status = sched::block_on_paused_send(async move {
+            sched::start_clock();
+            run_internet_with_timeout(&machines, Duration::from_millis(4000)).await
+        });
+        let status = match status {
+            Ok(s) => format!("{s:?}"),
+            Err(e) => e,
+        };
+        let log = sh.log.take();
+        let mut viols = vec![];
+        let connected: Vec<u8> = log
+            .iter()
+            .filter_map(|(_, e)| match e {
+                Ev::Note { who, what } if what == "connected" => Some(*who),
+                _ => None,
+            })
+            .collect();
+        let wrote: Vec<Vec<u8>> = log.iter().filter_map(|(_, e)| match e { Ev::Wrote { bytes, .. } => Some(bytes.clone()), _ => None }).collect();
+        let read: Vec<Vec<u8>> = log.iter().filter_map(|(_, e)| match e { Ev::Read { who: 0, got, .. } => Some(got.clone()), _ => None }).collect();
+        if connected.len() > 1 {
+            viols.push(Violation::new(
+                "one-binding-one-connection",
+                "Socket::connect",
+                "both-sockets-of-one-binding-connected",
+                format!("sockets {connected:?} share (10.0.0.10:5555 -> server) and both connects succeeded"),
+            ));
+        }
+        for w in &wrote {
+            if !read.contains(w) {
+                viols.push(Violation::new(
+                    "stream-intact",
+                    "Socket::send",
+                    "bytes-of-the-connected-socket-never-arrived",
+                    format!("a connected socket wrote {w:?}; the server read {read:?} (status {status})"),
+                ));
+            }
+        }
+        for r in &read {
+            if !wrote.contains(r) {
+                viols.push(Violation::new(
+                    "stream-intact",
+                    "TcpStream::read",
+                    "server-read-bytes-nobody-wrote",
+                    format!("server read {r:?}, written {wrote:?}"),
+                ));
+            }
+        }
+        let notes: Vec<String> = log
+            .iter()
+            .filter_map(|(_, e)| match e {
+                Ev::Note { who, what } => Some(format!("{who}:{what}")),
+                _ => None,
+            })
+            .collect();
+        ((status, notes), viols)
+    }
+}
+
 pub struct DgramSc(pub DgramCfg);
 
 impl Scenario for DgramSc {
@@ -882,6 +1039,10 @@ pub fn run(report: &mut Report, tier: &str) {
     for (cfg, b) in dgram_cfgs(tier) {
         sched::run_into(&DgramSc(cfg), &b, report);
     }
+    for arp in [true, false] {
+        let d = if tier == "quick" { 1 } else { 2 };
+        sched::run_into(&TwinSc { arp }, &Bounds::new(d).wall(Duration::from_secs(300)), report);
+    }
     vkit::loomrun::run_into(&loom_scenarios(tier), report);
     report.set("exhaustive", json!(true));
     report.set("rule", json!("every execution of each scenario that deviates from the default (FIFO task order, declaration-order select, all frames delivered) in at most d choices, each executed once on the real stack under a paused clock; states = executions, transitions = choice points answered"));
@@ -925,6 +1086,12 @@ pub fn replay(w: &serde_json::Value, tier: &str) -> String {
         .as_array()
         .map(|a| a.iter().map(|x| x.as_u64().unwrap() as u16).collect())
         .unwrap_or_default();
+    for arp in [true, false] {
+        let sc = TwinSc { arp };
+        if sc.name() == name {
+            return sched::replay(&sc, &ch);
+        }
+    }
     for t in ["quick", "thorough", tier] {
         for (c, _) in stream_cfgs(t) {
             if c.name == name {
